@@ -2,7 +2,10 @@ package main
 
 // regexp intrinsic: MustCompile on a constant pattern, MatchString as native evaluation on
 // concrete strings and as an unrolled Thompson-NFA simulation (pure Bool/BV formula) on bounded
-// symbolic strings. Bytes >= 0x80 are treated as one rune U+FFFD each (exact for ASCII classes).
+// symbolic strings. Bytes >= 0x80 are decoded as UTF-8 exactly as package regexp does it (utf8.DecodeRune):
+// a well-formed 2-, 3- or 4-byte sequence is one rune of that width, any other byte >= 0x80 is U+FFFD of
+// width 1 - so classes that reach beyond ASCII (negated classes, (?i) folding k to U+212A and s to U+017F,
+// \pL ...) are matched as the real engine matches them.
 
 import (
 	"regexp"
@@ -15,6 +18,36 @@ type compiledRegex struct {
 	pat  string
 	re   *regexp.Regexp
 	prog *syntax.Prog
+	wide map[int][][2]rune // per rune instruction: the ranges of runes >= 0x80 it matches
+}
+
+// wideRanges: the runes >= 0x80 that instruction pc matches, as sorted ranges (computed once by asking the
+// instruction itself about every rune).
+func (cr *compiledRegex) wideRanges(pc int) [][2]rune {
+	if r, ok := cr.wide[pc]; ok {
+		return r
+	}
+	in := &cr.prog.Inst[pc]
+	var out [][2]rune
+	start := rune(-1)
+	for r := rune(0x80); r <= 0x110000; r++ {
+		m := r <= 0x10FFFF && !(r >= 0xD800 && r <= 0xDFFF) && in.MatchRune(r)
+		if r >= 0xD800 && r <= 0xDFFF && start >= 0 {
+			continue // surrogates are never decoded: do not split a range over them
+		}
+		if m && start < 0 {
+			start = r
+		}
+		if !m && start >= 0 {
+			out = append(out, [2]rune{start, r - 1})
+			start = -1
+		}
+	}
+	if cr.wide == nil {
+		cr.wide = map[int][][2]rune{}
+	}
+	cr.wide[pc] = out
+	return out
 }
 
 type regexObj struct{ cr *compiledRegex }
@@ -67,8 +100,64 @@ func runeInstMatchesByte(tc *TermCtx, in *syntax.Inst, b *Term) *Term {
 			start = -1
 		}
 	}
-	if matchRune(0xFFFD) {
-		res = tc.Or(res, tc.Not(tc.Ult(b, tc.BV(0x80, 8))))
+	return res
+}
+
+// utf8At: for the bytes from position pos, the conditions under which they start a well-formed sequence of
+// width 2, 3, 4 (utf8's accept ranges; all bytes must lie inside the string) and the rune each would decode to.
+func utf8At(tc *TermCtx, b []*Term, n *Term, pos int) (valid [5]*Term, val [5]*Term) {
+	in := func(x *Term, lo, hi uint64) *Term { return tc.And(tc.Ule(tc.BV(lo, 8), x), tc.Ule(x, tc.BV(hi, 8))) }
+	bits := func(x *Term, mask uint64, sh uint64) *Term {
+		return tc.Shl(tc.ZExt(tc.BAnd(x, tc.BV(mask, 8)), 32), tc.BV(sh, 32))
+	}
+	for w := 2; w <= 4; w++ {
+		valid[w] = tc.False
+	}
+	if pos+2 <= len(b) {
+		cont1 := in(b[pos+1], 0x80, 0xBF)
+		valid[2] = tc.AndN(tc.Ule(tc.BV(uint64(pos+2), 64), n), in(b[pos], 0xC2, 0xDF), cont1)
+		val[2] = tc.BOr(bits(b[pos], 0x1F, 6), bits(b[pos+1], 0x3F, 0))
+	}
+	if pos+3 <= len(b) {
+		b0, b1 := b[pos], b[pos+1]
+		second := tc.OrN(
+			tc.And(tc.Eq(b0, tc.BV(0xE0, 8)), in(b1, 0xA0, 0xBF)),
+			tc.And(tc.Or(in(b0, 0xE1, 0xEC), in(b0, 0xEE, 0xEF)), in(b1, 0x80, 0xBF)),
+			tc.And(tc.Eq(b0, tc.BV(0xED, 8)), in(b1, 0x80, 0x9F)))
+		valid[3] = tc.AndN(tc.Ule(tc.BV(uint64(pos+3), 64), n), second, in(b[pos+2], 0x80, 0xBF))
+		val[3] = tc.BOr(tc.BOr(bits(b0, 0x0F, 12), bits(b1, 0x3F, 6)), bits(b[pos+2], 0x3F, 0))
+	}
+	if pos+4 <= len(b) {
+		b0, b1 := b[pos], b[pos+1]
+		second := tc.OrN(
+			tc.And(tc.Eq(b0, tc.BV(0xF0, 8)), in(b1, 0x90, 0xBF)),
+			tc.And(in(b0, 0xF1, 0xF3), in(b1, 0x80, 0xBF)),
+			tc.And(tc.Eq(b0, tc.BV(0xF4, 8)), in(b1, 0x80, 0x8F)))
+		valid[4] = tc.AndN(tc.Ule(tc.BV(uint64(pos+4), 64), n), second, in(b[pos+2], 0x80, 0xBF), in(b[pos+3], 0x80, 0xBF))
+		val[4] = tc.BOr(tc.BOr(bits(b0, 0x07, 18), bits(b1, 0x3F, 12)), tc.BOr(bits(b[pos+2], 0x3F, 6), bits(b[pos+3], 0x3F, 0)))
+	}
+	return
+}
+
+// wideMatch: rune r (32 bits, known to lie in [lo,hi]) is matched by the ranges.
+func wideMatch(tc *TermCtx, ranges [][2]rune, r *Term, lo, hi rune) *Term {
+	res := tc.False
+	for _, rg := range ranges {
+		a, z := rg[0], rg[1]
+		if z < lo || a > hi {
+			continue
+		}
+		if a <= lo && z >= hi {
+			return tc.True
+		}
+		c := tc.True
+		if a > lo {
+			c = tc.And(c, tc.Ule(tc.BV(uint64(a), 32), r))
+		}
+		if z < hi {
+			c = tc.And(c, tc.Ule(r, tc.BV(uint64(z), 32)))
+		}
+		res = tc.Or(res, c)
 	}
 	return res
 }
@@ -85,16 +174,26 @@ func (ex *Exec) regexMatch(cr *compiledRegex, s Str) *Term {
 	np := len(prog.Inst)
 	capN := len(b)
 	matched := tc.False
-	// active[pc] at current position (before epsilon closure)
-	active := make([]*Term, np)
-	for i := range active {
-		active[i] = tc.False
+	// pending[p][pc]: activations arriving at position p (before epsilon closure); runes are 1 to 4 bytes wide
+	pending := make([][]*Term, capN+5)
+	for p := range pending {
+		pending[p] = make([]*Term, np)
+		for i := range pending[p] {
+			pending[p][i] = tc.False
+		}
 	}
+	// boundary[p]: position p is where the real engine decodes a rune (it never looks inside a sequence)
+	boundary := make([]*Term, capN+5)
+	for p := range boundary {
+		boundary[p] = tc.False
+	}
+	boundary[0] = tc.True
 	for pos := 0; pos <= capN; pos++ {
+		active := pending[pos]
 		posT := tc.BV(uint64(pos), 64)
 		inStr := tc.Ule(posT, n) // position exists (pos <= len)
 		// unanchored search: a match attempt may start at every position
-		active[prog.Start] = tc.Or(active[prog.Start], inStr)
+		active[prog.Start] = tc.Or(active[prog.Start], tc.And(inStr, boundary[pos]))
 		// epsilon closure: DFS from every entry state, carrying whether the path needs end-of-text
 		atEnd := tc.Eq(n, posT)
 		entries := active
@@ -153,10 +252,14 @@ func (ex *Exec) regexMatch(cr *compiledRegex, s Str) *Term {
 		}
 		// consume byte at pos (requires pos < n)
 		hasByte := tc.Ult(posT, n)
-		next := make([]*Term, np)
-		for i := range next {
-			next[i] = tc.False
+		valid, val := utf8At(tc, b, n, pos)
+		ascii := tc.Ult(b[pos], tc.BV(0x80, 8))
+		broken := tc.AndN(tc.Not(ascii), tc.Not(valid[2]), tc.Not(valid[3]), tc.Not(valid[4]))
+		boundary[pos+1] = tc.Or(boundary[pos+1], tc.AndN(boundary[pos], hasByte, tc.Or(ascii, broken)))
+		for w := 2; w <= 4; w++ {
+			boundary[pos+w] = tc.Or(boundary[pos+w], tc.And(boundary[pos], valid[w]))
 		}
+		spans := [5][2]rune{2: {0x80, 0x7FF}, 3: {0x800, 0xFFFF}, 4: {0x10000, 0x10FFFF}}
 		for pc := 0; pc < np; pc++ {
 			a := active[pc]
 			if a.IsFalse() {
@@ -165,11 +268,21 @@ func (ex *Exec) regexMatch(cr *compiledRegex, s Str) *Term {
 			in := &prog.Inst[pc]
 			switch in.Op {
 			case syntax.InstRune, syntax.InstRune1, syntax.InstRuneAny, syntax.InstRuneAnyNotNL:
-				m := runeInstMatchesByte(tc, in, b[pos])
-				next[in.Out] = tc.Or(next[in.Out], tc.AndN(a, hasByte, m))
+				m := tc.And(ascii, runeInstMatchesByte(tc, in, b[pos]))
+				if in.MatchRune(0xFFFD) {
+					m = tc.Or(m, broken)
+				}
+				pending[pos+1][in.Out] = tc.Or(pending[pos+1][in.Out], tc.AndN(a, hasByte, m))
+				ranges := cr.wideRanges(pc)
+				for w := 2; w <= 4; w++ {
+					if valid[w].IsFalse() {
+						continue
+					}
+					wm := wideMatch(tc, ranges, val[w], spans[w][0], spans[w][1])
+					pending[pos+w][in.Out] = tc.Or(pending[pos+w][in.Out], tc.AndN(a, valid[w], wm))
+				}
 			}
 		}
-		active = next
 	}
 	return matched
 }
